@@ -1408,6 +1408,15 @@ def check_safe_wrap(rep, app):
                     isinstance(v.args[1], ast.Constant) and v.args[1].value == 'wsgi_wrapper' and isinstance(v.args[2], ast.Constant) and v.args[2].value is None:
                 wnames.append(s.targets[0].id)
     wnames = [w for w in wnames if single_value(sw, w) is not None]
+    if not wnames:
+        # a lookup of 'wsgi_wrapper' there is, but not ``getattr(<source>, 'wsgi_wrapper', None)`` on the source itself (on its
+        # class, on another object, with another default): a wrapper set on the instance is missed / something else is called
+        other = [c for c in walk_body(sw.node) if isinstance(c, ast.Call) and call_name(c) == 'getattr' and len(c.args) >= 2 and
+                 isinstance(c.args[1], ast.Constant) and c.args[1].value == 'wsgi_wrapper']
+        if other:
+            rep.check('R13.b', fkey(sw, 'no wrapper'), False, '_safe_wrap_wsgi does not take the wrapper from the source itself with default None: %s' %
+                      '; '.join(short(c, 60) for c in other), sw.mod, sw.node)
+            return
     if len(wnames) != 1:
         raise AnalysisError('_safe_wrap_wsgi: no single local holding getattr(%s, \'wsgi_wrapper\', None) found' % ps[1])
     W = wnames[0]
